@@ -248,6 +248,9 @@ func intrinsicTable() map[string]intrinsic {
 		}
 		return done(m.tt.BV(uint64(n), 64))
 	}
+	T[zz+"GlobalWrites"] = func(m *Machine, th *Thread, fr *Frame, f FuncV, a []Value) (Value, invStatus) {
+		return done(m.tt.BV(uint64(m.globalWrites), 64))
+	}
 	T[zz+"ThreadsAliveIs"] = func(m *Machine, th *Thread, fr *Frame, f FuncV, a []Value) (Value, invStatus) {
 		n := 0
 		for _, t := range m.threads {
@@ -467,6 +470,7 @@ func (m *Machine) globalCell(g *ssa.Global) *Cell {
 		c, ok := m.globals[g]
 		if !ok {
 			c = m.newCell(g.Type().(*types.Pointer).Elem(), "global "+g.Name())
+			c.isGlobal = true
 			m.globals[g] = c
 		}
 		return c
@@ -551,6 +555,8 @@ func (m *Machine) ensureInit(pkg *ssa.Package) {
 			panic(r)
 		}
 	}()
+	m.initDepth++
+	defer func() { m.initDepth-- }()
 	m.runSync(FuncV{fn: initFn}, nil, true, !kit)
 }
 
